@@ -229,9 +229,19 @@ def observe(datadir):
 
 
 def materialize(plan, datadir):
+    """(re)create the initial directory state; datadir may hold the leftovers of a previous run of the same case"""
+    if os.path.isdir(datadir):
+        for name in os.listdir(datadir):
+            p = os.path.join(datadir, name)
+            if os.path.isdir(p) and not os.path.islink(p):
+                shutil.rmtree(p)
+            else:
+                os.unlink(p)
     if plan.init_dir == "absent":
+        if os.path.isdir(datadir):
+            os.rmdir(datadir)
         return
-    os.makedirs(datadir)
+    os.makedirs(datadir, exist_ok=True)
     for n, data in plan.init_model.files.items():
         with open(os.path.join(datadir, ref.filename(n)), "wb") as fh:
             fh.write(data)
@@ -274,8 +284,8 @@ def compare(before, after, info, obs, odd):
         miss = _subseq_missing(parsed, exp)
         if miss:
             trig = {nb + i for i, (_, rolled) in enumerate(info) if rolled}
-            if all(i in trig for i in miss):
-                return "stream/block-dropped-at-rollover", f"{len(miss)} block(s) that triggered a new file are in no file"
+            if miss[0] in trig:
+                return "stream/block-dropped-at-rollover", f"block {miss[0]} of {len(exp)}, which triggered a new file, is in no file ({len(miss)} missing)"
             if all(i < nb for i in miss):
                 return "stream/earlier-blocks-lost", f"{len(miss)} block(s) of earlier batches missing"
             return "stream/block-missing", f"blocks {miss[:6]} of {len(exp)} missing"
@@ -367,12 +377,17 @@ class _Tmp:
         return False
 
 
+def _datadir(plan, root):
+    # the temp directory itself is the data directory, except when the case starts without one
+    return os.path.join(root, "data") if plan.init_dir == "absent" else root
+
+
 def check_history(case):
     plan = Plan(case)
     f = Fails()
     cls = sorted(plan.classes)
     with _Tmp() as root:
-        out = run_history(plan, os.path.join(root, "data"))
+        out = run_history(plan, _datadir(plan, root))
     if out["failure"]:
         f.add(*out["failure"])
     return cls, f
@@ -416,7 +431,8 @@ def check_crash(case):
     if plan.last_rolls:
         cls.add("nt:crash-at-rollover")
     with _Tmp() as root:
-        dry = run_history(plan, os.path.join(root, "dry"), arm_last=True)
+        d = _datadir(plan, root)
+        dry = run_history(plan, d, arm_last=True)
         if dry["failure"]:
             f.add(*dry["failure"])
             cls.add("enumeration-skipped:history-fails-without-crash")
@@ -442,13 +458,11 @@ def check_crash(case):
         cls.add("fault-points:" + ("1-8" if n <= 8 else "9-16" if n <= 16 else "17-32" if n <= 32 else "33+"))
         seen = set()
         for i in range(n):
-            d = os.path.join(root, f"c{i}")
             out = run_history(plan, d, crash_at=i)
             fs = out["fs"]
             if fs.crashed is None or tuple(fs.crashed) != tuple(points[i]):
                 raise RuntimeError(f"C19 harness: fault point {i} {points[i]} not reproduced (got {fs.crashed}); run is not deterministic")
             bad = judge_crash(plan, before, after, out["obs"], out["odd"])
-            shutil.rmtree(d, ignore_errors=True)
             if bad and bad[0] not in seen:
                 seen.add(bad[0])
                 f.add(f"crash/{bad[0]}/first-at-{_point_kind(points[i])}", f"point {i}/{n} {points[i]}: {bad[1]}")
